@@ -775,6 +775,27 @@ impl World {
     }
 
     /// generate a key package for party q; returns (message bytes, reference)
+    /// key package of a throw-away device whose client never registered extension type 0xF001 (C10: a new member
+    /// has to support every extension type of the group context)
+    pub fn legacy_key_package(&mut self, p: usize) -> VResult<Option<Vec<u8>>> {
+        let csp = self.idgen_suite();
+        let Ok((sk, pk)) = csp.signature_key_generate() else { return Ok(None) };
+        let name = format!("legacy-{}-{}", self.step_no, self.sub).into_bytes();
+        let sid = SigningIdentity::new(BasicCredential::new(name).into_credential(), pk);
+        let client = mls_rs::Client::builder()
+            .identity_provider(mls_rs::identity::basic::BasicIdentityProvider::new())
+            .crypto_provider(self.parties[p].crypto.clone())
+            .custom_proposal_type(mls_rs::group::proposal::ProposalType::new(0xF000))
+            .signing_identity(sid, sk, self.suite)
+            .build();
+        let now = self.now();
+        let prop = self.cfg.property.clone();
+        let r = guarded(&prop, "generate_key_package_message(legacy device)", || {
+            client.generate_key_package_message(Default::default(), Default::default(), Some(now))
+        })?;
+        Ok(r.ok().and_then(|m| m.to_bytes().ok()))
+    }
+
     pub fn gen_key_package(&mut self, q: usize) -> VResult<Option<Vec<u8>>> {
         let now = self.now();
         self.gen_key_package_at(q, now)
@@ -879,7 +900,19 @@ impl World {
             .get(&epoch)
             .and_then(|m| m.iter().find(|(q, _)| **q != p).map(|(_, i)| *i));
         let mut tmpl_kp = None;
+        let ctx_has_f001 = self.groups[g]
+            .records
+            .get(&epoch)
+            .map(|r| crate::c13::ctx_has_extension(&r.ctx, 0xF001))
+            .unwrap_or(false);
         for (t, q) in &spec.templates {
+            if *t == 12 && ctx_has_f001 {
+                // a device that does not support the extension type the group context carries
+                tmpl_kp = self.legacy_key_package(p)?;
+                if tmpl_kp.is_some() {
+                    self.stats.probe("template-legacy-device");
+                }
+            }
             if matches!(t, 5 | 8 | 10 | 11) && *q < self.parties.len() {
                 let st = self.mem(*q, g).status.clone();
                 if matches!(st, Status::Never) {
@@ -957,7 +990,7 @@ impl World {
                             .add_external_psk(mls_rs::psk::ExternalPskId::new(vec![b'k', 0]))?;
                     }
                     4 => b = b.add_external_psk(mls_rs::psk::ExternalPskId::new(vec![b'k', 99]))?,
-                    5 | 8 | 10 | 11 => {
+                    5 | 8 | 10 | 11 | 12 => {
                         if let Some(kp) = &tmpl_kp {
                             b = b.add_member(MlsMessage::from_bytes(kp)?)?;
                             if *t == 5 {
